@@ -2,7 +2,9 @@ package props
 
 import (
 	"fmt"
+	"go/token"
 	"go/types"
+	"regexp"
 	"sort"
 	"strings"
 
@@ -361,6 +363,9 @@ func C14(p *core.Program, r *core.Report) {
 	// ---- P8
 	checkPrefixTable(p, r, "P8")
 
+	// ---- P10, P11
+	checkOGMetaLoop(p, r)
+
 	// ---- P9: what the three markup parsers read is the page as the caller gave it: nothing below
 	// Apply rewrites the caller's document (the converter works on a clone) - effect analysis,
 	// shared with C10-M1. A conversion pass that consumed the tree itself (font -> span, detached
@@ -595,4 +600,87 @@ func checkPrefixTable(p *core.Program, r *core.Report, rule string) {
 	}
 	r.Add(rule, "a declared prefix is stored only under the entry of its own namespace (og for the bare namespace, profile, article)", p.Pos(fn.Pos()), n >= 3 && len(bad) == 0,
 		fmt.Sprintf("%d table writes on %d decision paths, %d not conditioned on their own object type", n, len(paths), len(bad)), bad...)
+}
+
+// checkOGTypeKnownFirst (C14-P10) and checkOGNameMatch (C14-P11), both on parseMetaTags with
+// helpers expanded.
+//
+// P10: the profile:* and article:* properties count only for an object of their type, and the
+// type-dependent parsers decide that from propertyTable["type"] at the moment they are called.
+// "Any order in the document" therefore needs og:type to be in the table before the first of them
+// runs: a loop over the meta elements that stores the content attribute under "type" must be
+// complete (its header dominates, its body does not contain) every call of ProfilePropParser.Parse
+// and ArticlePropParser.Parse.
+//
+// P11: a required property is set from the tag of exactly that name: prefix matching of the
+// property name is reachable only for table names that end in ":" (the image structure prefix).
+func checkOGMetaLoop(p *core.Program, r *core.Report) {
+	fn := mustInl(p, r, "P10", "(*mod/internal/markup/opengraph.Parser).parseMetaTags")
+	if fn == nil {
+		return
+	}
+	c := core.NewCanon(p)
+	loops, _ := core.NaturalLoops(fn)
+	var typeCalls []ssa.Instruction
+	for _, call := range core.Calls(fn, func(ci ssa.CallInstruction) bool {
+		return core.IsCallTo(ci, "(*mod/internal/markup/opengraph.ProfilePropParser).Parse", "(*mod/internal/markup/opengraph.ArticlePropParser).Parse")
+	}) {
+		typeCalls = append(typeCalls, call.(ssa.Instruction))
+	}
+	var pre []*ssa.MapUpdate
+	for _, in := range instrsOf(fn) {
+		mu, ok := in.(*ssa.MapUpdate)
+		if !ok {
+			continue
+		}
+		if k, isC := core.ConstString(mu.Key); !isC || k != "type" {
+			continue
+		}
+		if v := c.Of(mu.Value); !strings.Contains(v, "dom.GetAttribute(") || !strings.HasSuffix(v, `,"content")`) {
+			continue
+		}
+		for _, l := range loops {
+			if !l.Body[mu.Block()] {
+				continue
+			}
+			ok := len(typeCalls) > 0
+			for _, tc := range typeCalls {
+				if l.Body[tc.Block()] || !l.Header.Dominates(tc.Block()) {
+					ok = false
+				}
+			}
+			if ok {
+				pre = append(pre, mu)
+			}
+		}
+	}
+	r.Add("P10", "og:type is in the property table before the first type-dependent parser runs", p.Pos(fn.Pos()), len(typeCalls) >= 2 && len(pre) >= 1,
+		fmt.Sprintf("%d calls of the profile/article parsers; %d stores of a content attribute under \"type\" in a loop that is complete before them", len(typeCalls), len(pre)))
+
+	// P11
+	var prefixTests []ssa.Instruction
+	for _, call := range core.Calls(fn, func(ci ssa.CallInstruction) bool { return core.IsCallTo(ci, "strings.HasPrefix") }) {
+		args := call.Common().Args
+		if len(args) == 2 && strings.Contains(c.Of(args[0]), `"property")`) && strings.Contains(c.Of(args[1]), ".Name") {
+			prefixTests = append(prefixTests, call.(ssa.Instruction))
+		}
+	}
+	cut, m := core.CutAtoms(p, fn, regexp.MustCompile(`^strings\.HasSuffix\(.*\.Name.*,":"\)$`), true)
+	bad := 0
+	for _, t := range prefixTests {
+		if len(m) == 0 || core.InstrReachable(fn, cut, t) {
+			bad++
+		}
+	}
+	nEq := 0
+	for _, in := range instrsOf(fn) {
+		if bo, ok := in.(*ssa.BinOp); ok && (bo.Op == token.EQL || bo.Op == token.NEQ) {
+			x, y := c.Of(bo.X), c.Of(bo.Y)
+			if strings.Contains(x, `"property")`) && strings.Contains(y, ".Name") || strings.Contains(y, `"property")`) && strings.Contains(x, ".Name") {
+				nEq++
+			}
+		}
+	}
+	r.Add("P11", "a property is stored under a table name only if its name is that name as a whole (prefix matching only for names ending in \":\")", p.Pos(fn.Pos()),
+		bad == 0 && nEq >= 1, fmt.Sprintf("%d prefix tests of the property name against a table name, %d of them reachable for names that do not end in \":\"; %d whole-name comparisons", len(prefixTests), bad, nEq))
 }
